@@ -42,6 +42,7 @@ func (c Config) String() string {
 // World is the resolved program of one configuration.
 type World struct {
 	inputParam      map[*ssa.Parameter]bool // rules_num.go: parameters holding (parts of) the value being encoded
+	fmtFwd          map[*ssa.Function]bool  // rules_fmtwalk.go: in-package functions forwarding variadic operands to fmt
 	Cfg             Config
 	Repo            string
 	Fset            *token.FileSet
